@@ -7,6 +7,7 @@ from collections import OrderedDict
 from chameleon.exc import ParseError
 from chameleon.exc import UndefinedNamespacePrefix
 from chameleon.namespaces import XML_NS
+from chameleon.namespaces import XMLNS_NS
 from chameleon.tokenize import Token
 
 
@@ -160,6 +161,10 @@ def unpack_attributes(attributes, namespace, default, restricted_namespace):
                         "Undefined namespace prefix: %s." % prefix, prefix)
                 else:
                     ns = default
+        elif name == 'xmlns':
+            # The declaration of a default namespace: it is one on any
+            # element, whatever prefix the element itself carries.
+            ns = XMLNS_NS
         else:
             ns = default
         # Several attributes may share one expanded name (``lang`` and
